@@ -21,25 +21,29 @@ TInit == /\ tid \in 1..Len(Traces) /\ l = 1
          /\ dest0 = DestOf(Traces[tid].dest0) /\ dest = dest0
          /\ cache = [n \in Names |-> NotCached] /\ order = <<>>
          /\ seen = 0 /\ copied = {} /\ failedn = 0 /\ notcopied = {} /\ lastrev = 0
-TNext == /\ l <= Len(T.order)
-         /\ \E f \in todo : f.id = T.order[l] /\ Visit(f)
-         /\ l' = l + 1 /\ tid' = tid
+         /\ usage = Traces[tid].usage /\ exitc = 255
+TNext == \/ /\ l <= Len(T.order)
+            /\ \E f \in todo : f.id = T.order[l] /\ Visit(f)
+            /\ l' = l + 1 /\ tid' = tid
+         \/ /\ (Args \/ (l > Len(T.order) /\ Finish)) /\ UNCHANGED <<l, tid>>
 TSpec == TInit /\ [][TNext]_<<vars, tid, l>>
 
 ODest == DestOf(O.dest)
 Failed ==
   {n \in {"LatestWins", "OthersUntouched", "Accounting", "ExitZero"} :
-     CASE n = "LatestWins" -> ~(LatestWins(ODest, dest0, srcs) /\ O.strays = <<>>)
-       [] n = "OthersUntouched" -> ~OthersUntouched(ODest, dest0, srcs)
-       [] n = "Accounting" -> O.totals /\ ~Accounting(srcs, Rng(O.copied), Rng(O.notcopied), O.failed, O.seen)
-       [] n = "ExitZero" -> O.exit # 0}      \* (124 = cut off by the harness: the script did not end)
+     CASE n = "LatestWins" -> ~(LatestWins(ODest, dest0, Visited) /\ O.strays = <<>>)
+       [] n = "OthersUntouched" -> ~OthersUntouched(ODest, dest0, Visited)
+       [] n = "Accounting" -> O.totals /\ ~Accounting(Visited, Rng(O.copied), Rng(O.notcopied), O.failed, O.seen)
+       [] n = "ExitZero" -> IF usage = "none" THEN O.exit # 0
+                            ELSE ~(O.exit = (IF usage = "help" THEN 0 ELSE 64) /\ ODest = dest0 /\ O.strays = <<>> /\ O.copied = <<>>)}      \* (124 = cut off by the harness: the script did not end)
 Drift ==
-  IF Len(T.order) # Cardinality(srcs) THEN "order"
+  IF O.exit # exitc THEN "exit"
+  ELSE IF Len(T.order) # Cardinality(Visited) THEN "order"
   ELSE IF ODest # dest THEN "dest"
   ELSE IF Rng(O.copied) # copied THEN "copied"
   ELSE IF Rng(O.notcopied) # notcopied THEN "notcopied"
   ELSE IF O.totals /\ O.failed # failedn THEN "failed"
   ELSE "ok"
-Report == (l > Len(T.order)) =>
+Report == (exitc # 255) =>
    PrintT(ToJson([id |-> T.id, failed |-> Failed, drift |-> Drift, mdest |-> [n \in Names |-> dest[n].id]]))
 =============================================================================
